@@ -32,6 +32,7 @@ func init() {
 			"the callbacks of oj.Match, oj.MatchString, oj.MatchLoad (whole, 1-byte, fixed 2/3/7, readers returning their last bytes together with io.EOF, every single split point for documents up to 200 bytes) and sen.Match, sen.MatchString, sen.MatchLoad are compared as a sequence of (normalized path, value) with the outermost J locations in document order. " +
 			"non-trivial: the targets select at least one location; distinct by digest of (document, targets)",
 		Assumptions: []string{
+			"a scalar at the prefix of a filter target is never collected for the filter: a hit of another target on it must be delivered",
 			"when one selected location lies inside another only the outermost one is delivered (the statement's 'outermost location')",
 			"object members are visited in the order of the text, array elements in index order",
 			"the three findings excuse the callback sequence only (never errors or panics), and not a missing hit of a target without slice, negative index or filter unless that hit lies at or inside an element matched by the part of a filter target before its filter (the matcher collects those elements: F-C17-filter)",
